@@ -271,6 +271,11 @@ func cmdCheck(propID, tier string) int {
 	if v := envInt("VERIF_WALL_S", 0); v > 0 {
 		wallCap = time.Duration(v) * time.Second
 	}
+	if old, _ := filepath.Glob(filepath.Join(verifRoot, "replays", propID+"-*.json")); len(old) > 0 {
+		for _, f := range old {
+			_ = os.Remove(f) // replay files of earlier runs of this check
+		}
+	}
 	agg, err := runBatch(p, tier, batch, nRuns, wallCap)
 	defer os.RemoveAll(agg.failDir)
 	if err != nil {
